@@ -94,6 +94,7 @@ inductive Instr where
   | killIfOwn (m : Nat)      -- epilogue: the same, only if the exception is the thread's own (`source.throw(e)`)
   | join (t : Nat)           -- `Thread.join` (blocks until thread t has ended)
   | finish (savers : List Nat)  -- end of `iter()`: re-raise / `got_exception` of the listed saver threads / return
+  | setEpi (ms : List Nat)   -- enter the scope of another exception handler: from now on an exception kills mailboxes `ms`
   | dropEpi                  -- leave the scope of the exception handler (the closing loop of `divide_outputs` BEFORE the
                              -- fix of D28 sat in the `else:` branch of the try statement)
 deriving Repr, DecidableEq, Inhabited
@@ -202,8 +203,13 @@ def dividerThread (name : String) (lazy : Bool) (src : Nat × Nat) (outs : List 
     (count : Nat) (guarded : Bool := true) : Thread :=
   let gates := if lazy then (outs.filter fun o => !free.contains o.2).map (fun o => Instr.gate o.1) else []
   let round := gates ++ [.read src.1 src.2] ++ outs.map (fun o => Instr.send o.1)
-  let final := gates ++ [.read src.1 src.2] ++ (if guarded then [] else [.dropEpi]) ++ outs.map (fun o => Instr.close o.1)
-  { name := name, body := replicate' count round ++ final, epi := outs.map (fun o => Instr.killIfExc o.1),
+  -- handler of the main loop: `source.throw(e)` (the `_read` generator of the divider mailbox turns that into
+  -- `kill(upstream=True)` of the SOURCE mailbox), then `kill_from_exception` on every output;
+  -- handler of the closing loop (since the fix of D28): the outputs only
+  let killOuts := outs.map (fun o => Instr.killIfExc o.1)
+  let final := gates ++ [.read src.1 src.2] ++ (if guarded then [.setEpi (outs.map (·.1))] else [.dropEpi]) ++
+    outs.map (fun o => Instr.close o.1)
+  { name := name, body := replicate' count round ++ final, epi := .killIfExc src.1 :: killOuts,
     subs := [src], free := free, outs := outs.map (·.2) }
 
 /-- `saver.save_from(source)`: one `save` per chunk; `close` in the `finally` -/
@@ -347,7 +353,11 @@ def wire (c : Components) (o : Opts) (consumer : Consumer) : Net :=
     | .failAt k e => replicate' k [rd] ++ [.fail e] ++ replicate' (count + 1 - k) [rd]
   let main : Thread :=
     { name := "main", body := reads,
-      epi := (List.range w4.length).map Instr.killIfExc ++ (List.range others.length).map Instr.join ++ [.finish saverIdx],
+      -- an exception thrown into the generator at its `yield` (the consumer gave up) first passes `_read`'s handler, which
+      -- kills the TARGET mailbox; then `iter()` kills every mailbox in dict order (a `MailboxKilled` coming out of the target
+      -- finds it killed already, so the leading kill is a no-op then)
+      epi := (Instr.killIfExc ti :: (List.range w4.length).map Instr.killIfExc) ++ (List.range others.length).map Instr.join ++
+        [.finish saverIdx],
       subs := [(ti, ts)] }
   { mbs := w4.map fun m => { name := m.name, lazy := lazy, cap := capOf c o m.name, drive := m.drive,
                               threads := m.threads.map (·.name) },
@@ -508,6 +518,7 @@ def step (net : Net) (s : NState) (t : Nat) : Option NState :=
           | none => .returned
       some ({ s with outcome := some out }.setThr t ts.advance)
     | .dropEpi :: _ => some (s.setThr t { ts.advance with epi := [] })
+    | .setEpi ms :: _ => some (s.setThr t { ts.advance with epi := ms.map Instr.killIfExc })
 
 def init (net : Net) : NState :=
   { mbs := net.mbs.map fun sp => { subs := sp.drive.map fun _ => {} },
